@@ -49,7 +49,7 @@ func Verif_C08_work_json() {
 	switch verifapi.Choose(4) {
 	case 0:
 		cfg["unitid"] = []string{"unit0013", "unit0014", "nope", "..", ".", "", "../precious", "unit0013/status", "a/b",
-			"unit0013/status/x", "unit0013/stdout/..", string(make([]byte, 256))}[verifapi.Choose(12)]
+			known.ID() + "/status/x", known.ID() + "/status/..", string(make([]byte, 256))}[verifapi.Choose(12)]
 	case 1:
 		if v, ok := verifAnyJSONValue(1 + verifapi.Choose(6)); ok {
 			cfg["unitid"] = v
